@@ -1,13 +1,17 @@
 package c17
 
 import (
+	"encoding/json"
 	"fmt"
+	"os"
 	"strings"
 	"testing"
 
 	"pgregory.net/rapid"
 
+	"go.opentelemetry.io/collector/pdata/ptrace"
 	"go.opentelemetry.io/collector/verifharness/pgen"
+	"go.opentelemetry.io/collector/verifharness/pitems"
 	"go.opentelemetry.io/collector/verifharness/sig"
 	"go.opentelemetry.io/collector/verifharness/vt"
 )
@@ -112,4 +116,37 @@ func runTrickle(s Script) (nontrivial bool, key string, f *vt.Finding) {
 func TestTrickle(t *testing.T) {
 	cTrickle.ReplayRepeat = 3
 	vt.Run(t, cTrickle, vt.N(24, 960), genTrickle, runTrickle)
+}
+
+// TestWriteTrickleReplay regenerates the curated replay
+// /verif/replays/C17/trickle-never-idle-shard.json (only when VT_WRITE_REPLAY
+// names the output file): one producer, 70 single-span payloads 6 ms apart,
+// timeout 20 ms, send_batch_size 1000.
+func TestWriteTrickleReplay(t *testing.T) {
+	out := os.Getenv("VT_WRITE_REPLAY")
+	if out == "" {
+		t.Skip()
+	}
+	s := Script{Signal: sig.Traces, Size: 1000, TimeoutMS: 20, Settle: true, SlackMS: trickleSlackMS}
+	var next int64 = 1
+	var as []Arrival
+	for i := 0; i < 70; i++ {
+		td := ptrace.NewTraces()
+		td.ResourceSpans().AppendEmpty().ScopeSpans().AppendEmpty().Spans().AppendEmpty().SetName("s")
+		pitems.TagTraces(td, &next)
+		a := Arrival{Data: sig.Encode(td), NoInfo: true}
+		if i > 0 {
+			a.PauseMS = 6
+		}
+		as = append(as, a)
+	}
+	s.Producers = [][]Arrival{as}
+	b, err := json.MarshalIndent(map[string]any{"property": "C17", "check": "trickle", "script": s,
+		"about": "a shard that is never idle for `timeout` must still flush every `timeout`: the first span may wait at most timeout (+ slack), not until the trickle pauses"}, "", " ")
+	if err != nil {
+		t.Fatal(err)
+	}
+	if err := os.WriteFile(out, b, 0o644); err != nil {
+		t.Fatal(err)
+	}
 }
